@@ -124,3 +124,10 @@ Proof. exact tie_between. Qed.
 Theorem c14_tie_patch_cmp : forall prod spatch opatch,
   patch_cmp prod spatch opatch = src_patch_cmp prod spatch opatch (is_test opatch) (is_test spatch) (p_digit opatch) (p_digit spatch).
 Proof. exact tie_patch_cmp. Qed.
+(* Software.compare_version from the version comparison to its end is the source as it reads now: the version texts decide first *)
+Theorem c14_tie_compare_tail : forall prod sver spatch other,
+  compare_version prod sver spatch other =
+  let (oversion, opatch) := split_other other in
+  src_compare_tail (compare_versions sver oversion) prod (or_empty spatch) opatch
+                   (is_test opatch) (is_test (or_empty spatch)) (p_digit opatch) (p_digit (or_empty spatch)).
+Proof. exact tie_compare_tail. Qed.
